@@ -147,7 +147,8 @@ def case_st(draw):
         if not allnames:
             break
         si, lab, d, nm = draw(st.sampled_from(allnames))
-        form = draw(st.sampled_from(["full", "full", "nodrive", "bare", "flipname", "flipdir", "nearmiss", "wrongdir"]))
+        form = draw(st.sampled_from(["full", "full", "nodrive", "bare", "flipname", "flipdir", "nearmiss", "wrongdir",
+                                     "bit5", "bit5"]))
         lookups.append({"target": [si, lab, d, nm], "form": form})
     return {"surfaces": surfaces, "patterns": pats, "cur_drive": cur_drive, "cur_vol": cur_vol, "cur_dir": cur_dir,
             "lookups": lookups, "opus": opus}
@@ -271,6 +272,18 @@ class C15(CheckBase):
                 elif form == "nearmiss":
                     name = (nm + "X")[:7] if len(nm) < 7 else nm[:-1]
                     expect_found = any(n.lower() == name.lower() and x.lower() == d.lower() for x, n in cats[key])
+                elif form == "bit5":
+                    # swap one non-letter for its "bit 5" partner ([ <-> {, \ <-> |, ] <-> }, ^ <-> ~, @ <-> `, _ <-> DEL):
+                    # these are different characters, only LETTERS compare case-insensitively
+                    idx = [i for i, ch in enumerate(nm) if ch in "[\\]^{|}~@`"]
+                    if idx:
+                        i = idx[len(nm) % len(idx)]
+                        name = nm[:i] + chr(ord(nm[i]) ^ 0x20) + nm[i + 1:]
+                    elif d in "[\\]^{|}~@`":
+                        dd = chr(ord(d) ^ 0x20)
+                    else:
+                        name = (nm + "[")[:7] if len(nm) < 7 else "[" + nm[1:]
+                    expect_found = any(n.lower() == name.lower() and x.lower() == dd.lower() for x, n in cats[key])
                 elif form == "wrongdir":
                     dd = "~" if d != "~" else "}"
                     expect_found = any(n.lower() == nm.lower() and x.lower() == dd.lower() for x, n in cats[key])
@@ -287,7 +300,7 @@ class C15(CheckBase):
                 if r.signal is not None or r.timed_out:
                     v.fail("C15/crash", "type %r: signal/timeout" % spec, r.brief())
                     continue
-                if form in ("flipname", "flipdir") or any(ord(c) in META for c in spec):
+                if form in ("flipname", "flipdir", "bit5") or any(ord(c) in META for c in spec):
                     v.nontrivial = True
                     v.classes.append("lookup-" + form)
                 if expect_found:
